@@ -5,6 +5,14 @@ handlers, the engine FIFO, the teardown fence, the cancellable wrapper; every st
 Tie:   tools/tr_tsyncskel.py -> Gen/TsyncSkel.lean (lock extent of connectSync, its single unlock window, the handlers),
        harness/c04_connectsync.cpp: single-threaded lockstep over a scripted FIFO engine + DetSched schedules (1-8 callers, the I/O
        thread as a policy-driven loop, cancel and fence threads) replayed step by step by the Lean acceptor.
+Extension round: (i) tools/tr_enginecontract.py -> Gen/EngineContract.lean: close()/connect() of BOTH engines only enqueue, the Close arm of
+process() closes what it finds, connectSync has no protocol bypass and assigns `timeout` only through the clamp; Model/ConnectSyncFacts.lean pins
+head/tail of connectSync, the pending branches of both handlers and the wrapper's statement order by exact list equality; Cfg gained `engine` and
+`noBypass`, `timing` and `args` are load-bearing (doWakeTokenFirst / sessTls), each with a refutation theorem for the non-conforming behaviour
+(seed C04-d, seed C04-b, the unrepaired UDP bypass FC04b). (ii) harness/c04_real.cpp: monitor-only family on the REAL TcpEngine/UdpEngine over
+loopback (accept, closed port, black hole, RST, TLS failure / TLS not configured, unresolvable host, stop() under a parked caller, the I/O-thread
+guard, many concurrent callers, and the gated-I/O-thread schedule of seed C04-d); every failing real or real-time case is re-run ALONE before it
+is reported. (iii) `reset udp` / `polu`: the scripted-engine lockstep and DetSched programs also run a Protocol::UDP transport.
 "In time" is PARTIAL: the model proves a bound on the caller's own steps; that the wait lasts the caller's timeout is TIED, not proved:
 skeleton facts on the wait_for argument and the wrapper's sub-interval arithmetic (decide), a DetSched virtual-time monitor
 (single-caller programs: elapsed virtual time <= timeout + 5 ms, <= timeout + 100 ms + 5 ms under the cancellable wrapper) and a
@@ -18,12 +26,29 @@ from vlib.core import Ctx, ddmin, VERIF, load_known_findings
 ID = "C04"
 MODULES = ["IoraModel.Props.C04"]
 DETSCHED = os.path.join(VERIF, "harness", "detsched", "detsched.cpp")
-ANCHOR_FILES = ["include/iora/network/transport_impl.hpp", "include/iora/network/detail/engine_base.hpp", "include/iora/network/detail/tcp_engine.hpp"]
+ANCHOR_FILES = ["include/iora/network/transport_impl.hpp", "include/iora/network/detail/engine_base.hpp", "include/iora/network/detail/tcp_engine.hpp",
+                "include/iora/network/detail/udp_engine.hpp"]
 OBLIGATIONS = [
     {"id": "C04_skel", "theorem": "Iora.C04.skeleton_conforms", "kind": "proved",
      "statement": "genCfg.Good: the model is instantiated from the regenerated skeleton - lock extent of connectSync, one unlock window with only engine->close and abandoned set before it, handlers complete under the lock, wait_for(lk, timeout, done||shuttingDown), wrapper subInterval 100 ms / deadline now+timeout / min(remaining, subInterval), host/port/tls passed unchanged, engine error returned as is (decide)"},
     {"id": "C04_saturate", "theorem": "Iora.C04.timeouts_saturate", "kind": "proved",
      "statement": "connectSync and connectSyncCancellable saturate their timeout (detail::clampSyncTimeout, 100 years) before wait_for / the deadline computation: milliseconds::max() cannot wrap the deadline into the past (FC03b) (decide)"},
+    {"id": "C04_engine", "theorem": "Iora.C04.engine_contract_from_source", "kind": "proved",
+     "statement": "the EngineContract instance regenerated from tcp_engine.hpp/udp_engine.hpp holds: close(sid) of both engines is exactly `return enqueue(close(sid))`, connect() only takes an id and enqueues (ShuttingDown iff the queue refused), the Close arm of process() closes the session it finds (decide); Cfg.engine is computed from it and every theorem below is stated under it"},
+    {"id": "C04_exact", "theorem": "Iora.C04.skeleton_exact", "kind": "proved",
+     "statement": "exact-equality pins (review item C): head and tail of connectSync, the pending branches of onConnect/onClose, the statement order of connectSyncCancellable (result before token), timeout assigned only by the clamp, no protocol bypass (decide)"},
+    {"id": "C04_T3_closed", "theorem": "Iora.C04.T3_timed_out_attempt_is_closed", "kind": "proved",
+     "statement": "the clause as stated: once the engine FIFO is drained, the session of every attempt that returned its own Timeout is CLOSED in the engine"},
+    {"id": "C04_T3_contract_needed", "theorem": "Iora.C04.dropped_close_refutes_T3", "kind": "proved",
+     "statement": "the engine contract is necessary: with a close() that drops the command for an id not yet in the session table (seed C04-d) the call returns Timeout, the FIFO drains and the session is ESTABLISHED with its abandoned record never erased (witness schedule, decide)"},
+    {"id": "C04_udp_refuted", "theorem": "Iora.C04.C04_udp_refuted", "kind": "proved",
+     "statement": "FC04b: with the protocol bypass of the unrepaired tree (UDP: return engine->connect directly) C04_udp_statement is false - ok sid is returned before any onConnect"},
+    {"id": "C04_udp_gconnect", "theorem": "Iora.C04.C04_udp_refuted_global_connect", "kind": "proved",
+     "statement": "FC04b witness 2: under the bypass the global connect callback fires for a connectSync-created id"},
+    {"id": "C04_udp_unresolved", "theorem": "Iora.C04.C04_udp_refuted_unresolved", "kind": "proved",
+     "statement": "FC04b witness 3: under the bypass an unresolvable host yields ok sid and then the GLOBAL close callback for a session that never existed"},
+    {"id": "C04_udp_repaired", "theorem": "Iora.C04.C04_udp_holds_when_repaired", "kind": "proved",
+     "statement": "C04_udp_statement holds of every Good configuration (the repaired tree: UDP takes the same path as TCP)"},
     {"id": "C04_T1", "theorem": "Iora.C04.T1_ok_is_live", "kind": "proved",
      "statement": "every schedule: ret ok sid only for the session this call created, after the onConnect handler delivered it, and never for a session any connectSync issued engine->close for"},
     {"id": "C04_T2_connect", "theorem": "Iora.C04.T2_no_global_connect", "kind": "proved",
@@ -52,10 +77,20 @@ OBLIGATIONS = [
      "statement": "when engine->connect returns an error the call returns it at once: mutex released, nothing registered, counted or enqueued, no session id"},
     {"id": "C04_tls", "theorem": "Iora.C04.T_tls_mode_as_requested", "kind": "proved",
      "statement": "argument layer, every schedule: the session an attempt works on (and returns ok for) was created with the TLS mode this call requested"},
+    {"id": "C04_tls_returned", "theorem": "Iora.C04.T_tls_mode_of_returned_session", "kind": "proved",
+     "statement": "argument layer, every schedule: at the step that logs ret ok sid for caller c, session sid was created by an engine->connect carrying the TLS mode this call requested (Cfg.args is load-bearing: sessTls is defined through it)"},
+    {"id": "C04_error_reported", "theorem": "Iora.C04.T_error_is_the_reported_one", "kind": "proved",
+     "statement": "definite error, every schedule: an attempt returns the engine-reported error class only after the engine's onClose handler ran for THIS session and completed its waiter, the engine has closed the session, and the recorded reason can no longer change"},
+    {"id": "C04_reason_written", "theorem": "Iora.C04.T_reason_is_written_by_the_closing_step", "kind": "proved",
+     "statement": "the reason class of a session is the one carried by the step that begins its close handler, and such a step exists only while the engine has not closed the session (written exactly once)"},
     {"id": "C04_T6_ok", "theorem": "Iora.C04.T6_wrapper_ok", "kind": "proved",
      "statement": "connectSyncCancellable returns ok sid only if its last sub-attempt returned ok sid, never for a sub-attempt it abandoned"},
     {"id": "C04_T6_cancel", "theorem": "Iora.C04.T6_cancelled_only_if_cancelled", "kind": "proved",
      "statement": "it returns Cancelled only if the token was cancelled"},
+    {"id": "C04_T6_token_checks", "theorem": "Iora.C04.T6_cancelled_only_at_token_checks", "kind": "proved",
+     "statement": "every schedule: the step that logs wrapRet Cancelled is the wrapper's pre-cancel check or its loop check taken from the loop head (after a sub-attempt's own Timeout, whose session engine->close closed) - never the step in which a sub-attempt returns (an ok sid is always handed on)"},
+    {"id": "C04_T6_order_needed", "theorem": "Iora.C04.token_first_refutes_cancel_clause", "kind": "proved",
+     "statement": "the wrapper's statement order (Cfg.timing / wrapperOrderExact) is necessary: with the token looked at before the sub-attempt's result (seed C04-b) the wrapper returns Cancelled for a sub-attempt that returned ok 1, no engine->close is ever issued and session 1 stays established (witness schedule, decide)"},
     {"id": "C04_T6_pre", "theorem": "Iora.C04.T6_precancelled", "kind": "proved",
      "statement": "entered with a cancelled token it returns Cancelled without touching the engine"},
 ]
@@ -65,7 +100,9 @@ REASON = {1: "Connect", 2: "Resolve", 3: "Timeout", 4: "TLSHandshake", 5: "Unkno
 
 # ------------------------------------------------------------------ single-threaded cases
 def gen_seq_case(rng):
-    ops = ["reset"]
+    # a third of the cases run a Transport configured with Protocol::UDP (same scripted engine): after repair FC04b connectSync takes
+    # one path for every protocol, so the same model answers; on the unrepaired tree `connect` returns ok at once (monitor T1)
+    ops = ["reset udp" if rng.chance(1, 3) else "reset"]
     nsid = 0
     n = rng.range(2, 14)
     caller = 0
@@ -93,7 +130,7 @@ def gen_seq_case(rng):
             ops.append("fence")
     for _ in range(2 * nsid + 2):          # let the engine drain its queue
         ops.append("pop 1")
-    return {"cat": "seq", "ops": ops}
+    return {"cat": "seq-udp" if ops[0] == "reset udp" else "seq", "ops": ops}
 
 
 def seq_monitor(c, impl):
@@ -173,16 +210,17 @@ def gen_sched_case(rng, big):
             threads.append(["%s:%d:%d" % (rng.choice(["k", "k", "w"]), rng.choice(HUGE), rng.choice([0, 1, 2]))])
         policy = "".join(rng.choice("oofrpus") for _ in range(rng.range(1, 4)))
         return {"cat": "sched-long-timeout", "seed": rng.below(2 ** 31), "timeoutOneIn": 0, "spuriousOneIn": rng.choice([0, 0, 5]),
-                "policy": policy, "threads": threads}
+                "policy": policy, "threads": threads, "udp": rng.chance(1, 4)}
     for i in range(ncall):
         ops = []
         for _ in range(rng.choice([1, 1, 2]) if not big else 1):
             tls = rng.choice([0, 0, 1, 2])
-            if kind in ("wrapped", "cancel") or (kind == "mixed" and rng.chance(1, 3)):
-                ops.append("w:%d:%d" % (rng.choice([50, 120, 250, 350]), tls))
+            if kind in ("wrapped", "cancel") or (kind in ("mixed", "refuse", "fence") and rng.chance(1, 3)):
+                # wrapper timeouts: below one sub-interval, at exact multiples of it, in between, zero and negative
+                ops.append("w:%d:%d" % (rng.choice([50, 120, 250, 350, 0, 10, 40, 100, 200, 300, -5]), tls))
                 has_wrapped = True
             else:
-                ops.append("k:%d:%d" % (rng.choice([0, 30, 60, 200]), tls))
+                ops.append("k:%d:%d" % (rng.choice([0, 30, 60, 200, 0, 30, 60, 200, 1, -5]), tls))
         threads.append(ops)
     if kind == "cancel" or (kind in ("wrapped", "mixed") and rng.chance(1, 3)):
         x = []
@@ -193,7 +231,8 @@ def gen_sched_case(rng, big):
             x.append("x:%d" % rng.below(ncall))
         threads.append(x)
     if kind == "fence" or rng.chance(1, 20):
-        threads.append(["y"] * rng.range(0, 4) + ["f"])
+        # f = setTeardownFence; T = teardownWaitOut(true), the way ~Transport / performTeardown raise the fence (and wait the callers out)
+        threads.append(["y"] * rng.range(0, 4) + [rng.choice(["f", "f", "T"])])
     if kind == "refuse":
         threads.append(["y"] * rng.range(0, 3) + ["R"])       # engine->connect starts refusing (queue closed by a plain stop())
     # policy letters: o ok, f/u fail at pop (refused/unresolved), r/t/s fail later (refused / engine-side connect timeout / TLS failure),
@@ -203,12 +242,12 @@ def gen_sched_case(rng, big):
                "refuse": "oonp", "reasons": "furs" + ("" if has_wrapped else "tt")}[kind]
     policy = "".join(rng.choice(letters) for _ in range(rng.range(1, 6)))
     return {"cat": "sched-" + kind, "seed": rng.below(2 ** 31), "timeoutOneIn": rng.choice([0, 0, 0, 4, 8, 16]), "spuriousOneIn": rng.choice([0, 0, 5]),
-            "policy": policy, "threads": threads}
+            "policy": policy, "threads": threads, "udp": rng.chance(1, 4)}
 
 
 def sched_line(c, choices=None):
     first = ("c:" + ",".join(map(str, choices))) if choices is not None else ("c:" + c["choices"] if "choices" in c else str(c["seed"]))
-    parts = ["sched", first, str(c["timeoutOneIn"]), str(c["spuriousOneIn"]), "pol", c["policy"] or "-"]
+    parts = ["sched", first, str(c["timeoutOneIn"]), str(c["spuriousOneIn"]), "polu" if c.get("udp") else "pol", c["policy"] or "-"]
     for t in c["threads"]:
         parts += ["t"] + t
     return " ".join(parts)
@@ -389,7 +428,7 @@ def sched_monitor(c, res):
     ncallers = sum(1 for t in c["threads"] if any(o[0] in "kw" for o in t))
     if ncallers == 1:
         for t in res["times"]:
-            lim = t["timeout_ms"] * 1000 + SLACK_US + (SUB_US if t["wrapped"] else 0)
+            lim = max(0, t["timeout_ms"]) * 1000 + SLACK_US + (SUB_US if t["wrapped"] else 0)
             if t["elapsed_us"] > lim:
                 bad.append("H1/in-time: caller %d asked for %d ms (%s) and returned %s after %d us of virtual time (> %d us)"
                            % (t["caller"], t["timeout_ms"], "cancellable" if t["wrapped"] else "plain", t["ret"], t["elapsed_us"], lim))
@@ -407,6 +446,358 @@ def sched_monitor(c, res):
                     bad.append("H1/in-time: caller %d got Timeout after only %d us of virtual time although it asked for %d ms"
                                % (t["caller"], t["elapsed_us"], t["timeout_ms"]))
     return bad, fc04a
+
+
+def reach_counters(c, res):
+    """Branch / window counters of one accepted schedule (from the second review's reach.py): which windows of the property the
+    correspondence run actually reached. Returned as a set of labels; run_sched adds them to input_distribution as `reach:<label>`."""
+    per = set()
+    owner, cstate, csid, wrapped, eng, retd = {}, {}, {}, {}, {}, {}
+    cancelled, cancelled_while_parked, abandoned, delivered = set(), set(), set(), set()
+    fence = False
+    try:
+        for st in res["steps"]:
+            f = st["step"].split()
+            obs = st["obs"]
+            k = f[0]
+            if k == "call":
+                cid = int(f[1]); wrapped[cid] = f[2] == "1"; cstate[cid] = "start"
+                if fence: per.add("call-after-fence")
+                if cid in cancelled and wrapped[cid]: per.add("call-precancelled")
+            elif k == "cancel":
+                cid = int(f[1]); cancelled.add(cid)
+                s_ = cstate.get(cid)
+                per.add("cancel-while:" + str(s_))
+                if s_ == "parked": cancelled_while_parked.add((cid, csid.get(cid)))
+            elif k == "cEnter":
+                cid = int(f[1])
+                if "ret:" in obs: per.add("cEnter-fence-reject"); cstate[cid] = "done"
+                else: cstate[cid] = "haveLock"
+            elif k == "cConnect":
+                cid = int(f[1]); sid = int(obs.split(":")[1]); owner[sid] = cid; csid[cid] = sid; cstate[cid] = "connected"; eng[sid] = "queued"
+            elif k == "cRefuse":
+                cid = int(f[1]); per.add("cRefuse" + ("-wrapped" if wrapped.get(cid) else "-plain")); cstate[cid] = "done"
+            elif k == "cRegister":
+                cstate[int(f[1])] = "registered"
+            elif k == "cPark":
+                cstate[int(f[1])] = "parked"
+            elif k == "cWake":
+                cid = int(f[1]); t = f[2]; sid = csid[cid]
+                if "ret:" in obs:
+                    r = obs.split("ret:")[1].split(":", 1)[1]
+                    kind = "ok" if r.startswith("ok") else r
+                    per.add("cWake%s->%s" % (t, kind))
+                    if kind == "ok" and (cid, sid) in cancelled_while_parked: per.add("C04b-window:cancel-while-parked-then-ok")
+                    if kind == "ok" and eng.get(sid) == "closed": per.add("ok-for-session-already-closed-by-peer")
+                    if kind == "ok" and fence: per.add("ok-after-fence")
+                    retd[sid] = kind; cstate[cid] = "done"
+                    if kind == "err:ShuttingDown": abandoned.add(sid)
+                elif t == "1":
+                    cstate[cid] = "closing"; abandoned.add(sid); per.add("cWake1->window")
+                else:
+                    per.add("cWake0->repark-or-loop")
+            elif k == "cClose":
+                cstate[int(f[1])] = "relock"
+            elif k == "cRelock":
+                cid = int(f[1]); sid = csid[cid]
+                if "ret:" in obs:
+                    r = obs.split("ret:")[1].split(":", 1)[1]
+                    per.add("cRelock->" + r); cstate[cid] = "done"; retd[sid] = r
+                else:
+                    cstate[cid] = "wloop"; per.add("cRelock->wloop")
+                if fence: per.add("cRelock-after-fence")
+            elif k == "wLoop":
+                per.add("wLoop" + f[2] + ("->" + obs.split("ret:")[1].split(":", 1)[1] if "ret:" in obs else "->retry"))
+                cstate[int(f[1])] = "done" if "ret:" in obs else "start"
+            elif k == "fence":
+                fence = True
+                for s_ in set(cstate.values()):
+                    if s_ != "done": per.add("fence-with-caller-in:" + s_)
+            elif k == "ioPop":
+                ob = obs.split(";")[0]
+                if ob.startswith("cmd:connect:"):
+                    sid = int(ob.split(":")[2])
+                    if f[1] == "1": eng[sid] = "connecting"
+                    else:
+                        eng[sid] = "closed"
+                        per.add("popfail-owner:" + str(cstate.get(owner[sid])) + ("-abandoned" if sid in abandoned else ""))
+                    if sid in abandoned: per.add("connect-popped-after-abandon(C04-d window)")
+                elif ob.startswith("cmd:close:"):
+                    sid = int(ob.split(":")[2])
+                    per.add("closecmd-on:" + str(eng.get(sid)))
+                    if eng.get(sid) in ("connecting", "established"): eng[sid] = "closed"
+            elif k == "ioComplete":
+                sid = int(f[1]); eng[sid] = "established"
+                o = owner[sid]; s_ = cstate.get(o) if csid.get(o) == sid else "moved-on"
+                if sid in abandoned: per.add("lateConnect-abandoned-owner:" + str(s_) + ("-ret:" + retd[sid] if sid in retd else ""))
+                else: delivered.add(sid); per.add("onConnect-delivered-owner:" + str(s_))
+            elif k == "ioFail":
+                sid = int(f[1]); eng[sid] = "closed"
+                o = owner[sid]; s_ = cstate.get(o) if csid.get(o) == sid else "moved-on"
+                per.add("ioFail-" + ("abandoned" if sid in abandoned else "live") + "-owner:" + str(s_) + "-reason" + f[2])
+            elif k == "ioPeerClose":
+                sid = int(f[1]); eng[sid] = "closed"
+                per.add("peerClose-" + ("abandoned" if sid in abandoned else "delivered"))
+            elif k == "ioStep":
+                if "gclose" in obs: per.add("gclose")
+                if "gconnect" in obs: per.add("gconnect")
+    except (KeyError, IndexError, ValueError):
+        per.add("tracker-lost")          # a trace the tracker cannot follow is judged by the monitors / the acceptor, not here
+    if fence and any(wrapped.values()): per.add("fence+wrapped-caller")
+    if fence and cancelled: per.add("fence+cancel")
+    for t in c["threads"]:
+        for o in t:
+            if o[0] in "kw":
+                ms = int(o.split(":")[1])
+                if ms < 0: per.add("timeout-negative")
+                elif ms == 0: per.add("timeout-0")
+                elif o[0] == "w" and ms < 50: per.add("wrapper-timeout<50ms")
+                elif o[0] == "w" and ms % 100 == 0: per.add("wrapper-timeout-multiple-of-100ms")
+            if o == "T": per.add("fence-through-teardownWaitOut")
+    if c.get("udp"): per.add("protocol-udp")
+    return per
+
+
+# ------------------------------------------------------------------ the real engines on loopback (monitor-only)
+REAL_SLACK_MS = 1500      # generous: sanitizer build on a loaded machine; every failing real case is re-run alone before it is reported
+
+
+def gen_real_cases(rng, n):
+    """Scenarios of harness/c04_real.cpp: the REAL TcpEngine/UdpEngine behind the REAL Transport; peers that accept, refuse, black-hole,
+    reset, fail TLS, do not resolve; the gated-I/O-thread schedule of seed C04-d; stop() under a parked caller; the I/O-thread guard."""
+    fixed = ["real gated %d 0" % rng.choice([50, 60, 80, 100]), "real gated %d 1" % rng.choice([150, 250, 320]),
+             "real resolve udp 3000 0", "real resolve tcp 3000 %d" % rng.below(2), "real udp ok 1000", "real udp tls 1000",
+             "real accept 1500 0 %d keep" % rng.below(2), "real accept 1500 1 0 keep", "real accept 1500 2 %d keep" % rng.below(2),
+             "real refused 1000 %d" % rng.below(2), "real blackhole %d 0 -1" % rng.choice([120, 200]),
+             "real blackhole %d 1 %d" % (rng.choice([600, 900]), rng.choice([50, 130, 220])), "real stop 2000 %d" % rng.choice([80, 150]),
+             "real ioguard", "real many %d %d" % (rng.choice([4, 6, 9]), rng.choice([150, 300]))]
+    out = list(fixed)
+    while len(out) < n:
+        k = rng.below(100)
+        if k < 25:
+            out.append("real accept %d %d %d %s" % (rng.choice([300, 1000, 2000]), rng.choice([0, 0, 0, 1, 2]), rng.below(2),
+                                                   rng.choice(["keep", "peerclose", "rst", "appclose"])))
+        elif k < 35:
+            out.append("real refused %d %d" % (rng.choice([100, 500, 1500]), rng.below(2)))
+        elif k < 55:
+            w = rng.below(2)
+            tmo = rng.choice([60, 100, 150, 230, 300]) if w else rng.choice([50, 120, 200])
+            out.append("real blackhole %d %d %d" % (tmo, w, rng.choice([-1, -1, 30, 120]) if w else -1))
+        elif k < 80:
+            w = rng.below(2)
+            out.append("real gated %d %d" % (rng.choice([100, 150, 200, 250, 350]) if w else rng.choice([50, 70, 100]), w))
+        elif k < 88:
+            out.append("real stop %d %d" % (rng.choice([1000, 2000]), rng.choice([50, 100, 200])))
+        elif k < 92:
+            out.append("real resolve %s 3000 %d" % (rng.choice(["tcp", "udp"]), rng.below(2)))
+        elif k < 96:
+            out.append("real many %d %d" % (rng.choice([2, 3, 5, 8, 12]), rng.choice([120, 200, 350])))
+        else:
+            out.append("real udp %s 1000" % rng.choice(["ok", "tls"]))
+    return out
+
+
+def parse_real(line):
+    if not line.startswith("real "):
+        return None
+    f = line.split()
+    d = {"scen": f[1]}
+    for tok in f[2:]:
+        if "=" in tok:
+            k, v = tok.split("=", 1)
+            d[k] = v
+    d["rets"] = [] if d.get("ret", "-") == "-" else d["ret"].split(",")
+    d["els"] = [] if d.get("el", "-") == "-" else [int(x) for x in d["el"].split(",")]
+    for k in ("gconnect", "gdata", "held"):
+        d[k + "_ids"] = [] if d.get(k, "-") == "-" else [int(x) for x in d[k].split(",")]
+    d["gclose_ids"] = [] if d.get("gclose", "-") == "-" else [(int(x.split(":")[0]), x.split(":")[1]) for x in d["gclose"].split(",")]
+    return d
+
+
+def real_monitor(op, line):
+    """-> (violations, timing_only): verdicts over the raw observations of one real-engine scenario (implementation only)."""
+    bad = []
+    if line.startswith("crash:") or line.startswith("throw"):
+        return ["X: the real Transport crashes/throws in scenario `%s`: %s" % (op, line[:200])], False
+    d = parse_real(line)
+    if d is None or "skip" in d:
+        return [], False
+    t = op.split()
+    scen = t[1]
+    held = set(d["held_ids"])
+    rets, els = d["rets"], d["els"]
+    timing = []
+    # ---- clauses that hold in every scenario
+    for sid in d["gconnect_ids"]:
+        bad.append("T2: the global connect callback fired for session %d, which a connectSync created (no async connect() exists in this scenario)" % sid)
+    for sid, code in d["gclose_ids"]:
+        if sid not in held:
+            bad.append("T2: the global close callback (%s) fired for session %d, an id no connectSync call handed to the application" % (code, sid))
+    for sid in d["gdata_ids"]:
+        if sid not in held:
+            bad.append("T3/T2: the data callback fired for session %d, an id the application never received - the connection of a finished, "
+                       "non-ok attempt is alive" % sid)
+    if "want_sessions" in d and int(d["sessions"]) != int(d["want_sessions"]):
+        bad.append("T3: the engine holds %s live sessions but the application holds %s (a finished attempt left a connection behind, or a "
+                   "returned session is not live)" % (d["sessions"], d["want_sessions"]))
+    if int(d.get("left_open", "0")) > 0:
+        bad.append("T3: %s connection(s) of a timed-out / failed attempt were accepted by the target and never closed by the library "
+                   "(no EOF/RST within 2 s)" % d["left_open"])
+    if int(d.get("pend", "0")) != 0:
+        bad.append("T3: %s pendingConnects record(s) survive after every attempt is over and the engine is idle (no onClose ever reaps them)" % d["pend"])
+    if int(d.get("ac", "0")) != 0:
+        bad.append("T5: activeConnects = %s after every call has returned" % d["ac"])
+    for r in rets:
+        if r.startswith("err:Other") or r == "err:None":
+            bad.append("L8: connectSync returned an error without a definite code (%s)" % r)
+    # ---- per scenario
+    r0 = rets[0] if rets else None
+    e0 = els[0] if els else 0
+    if scen == "accept":
+        tmo, tls, then = int(t[2]), int(t[3]), t[5]
+        if tls == 0:
+            if r0 is None or not r0.startswith("ok:"):
+                bad.append("T1: connectSync to an accepting target returned %s" % r0)
+            elif int(d.get("accepted", "0")) < 1:
+                bad.append("T1: connectSync returned %s although the target accepted no connection" % r0)
+            elif int(d.get("sessions_after_ret", "0")) != 1:
+                bad.append("T1: connectSync returned %s but the engine holds %s sessions right afterwards" % (r0, d.get("sessions_after_ret")))
+            if then in ("peerclose", "rst") and r0 and r0.startswith("ok:") and not d["gclose_ids"]:
+                bad.append("T2: the peer closed a session that WAS handed out and no global close callback reported it within 2 s")
+            if then == "appclose" and d.get("peer_saw_close") == "0":
+                bad.append("X: close(sid) of a returned session did not close the connection")
+        elif tls == 1:
+            if r0 is None or r0.startswith("ok:"):
+                bad.append("T1: connectSync(TLS) returned %s although the peer never completed a TLS handshake" % r0)
+            elif r0 not in ("err:TLSHandshake", "err:PeerClosed", "err:Timeout"):
+                bad.append("L8: connectSync(TLS) against a non-TLS peer returned %s" % r0)
+        else:
+            if r0 is None or r0.startswith("ok:"):
+                bad.append("T1: connectSync(TLS) returned %s on a transport without a client TLS context" % r0)
+        if e0 > tmo + REAL_SLACK_MS:
+            timing.append("T5/in-time: connectSync(%d ms) returned after %d ms" % (tmo, e0))
+    elif scen == "refused":
+        tmo = int(t[2])
+        if r0 != "err:Connect":
+            bad.append("L8: connectSync to a closed port returned %s (expected the definite error Connect)" % r0)
+        if e0 > tmo + REAL_SLACK_MS:
+            timing.append("T5/in-time: connectSync(%d ms) to a closed port returned after %d ms" % (tmo, e0))
+    elif scen == "blackhole":
+        tmo, w, cancel_at = int(t[2]), int(t[3]), int(t[4])
+        allowed = ["err:Timeout"] + (["err:Cancelled"] if cancel_at >= 0 else [])
+        if r0 not in allowed:
+            bad.append("T1/L8: connectSync to a black-holed target returned %s" % r0)
+        if r0 == "err:Cancelled" and not w:
+            bad.append("T6: a plain connectSync returned Cancelled")
+        if e0 > tmo + REAL_SLACK_MS + (100 if w else 0):
+            timing.append("T5/in-time: connectSync(%d ms) to a black hole returned after %d ms" % (tmo, e0))
+        if r0 == "err:Timeout" and e0 + 20 < tmo:
+            timing.append("H1: Timeout after only %d ms of a %d ms timeout" % (e0, tmo))
+        if w and 0 <= cancel_at < tmo - 150 and e0 > cancel_at + 100 + REAL_SLACK_MS:
+            timing.append("H1/cancel latency: cancelled at %d ms, returned after %d ms" % (cancel_at, e0))
+    elif scen == "gated":
+        tmo, w = int(t[2]), int(t[3])
+        if r0 != "err:Timeout":
+            bad.append("T1: connectSync returned %s while the I/O thread was parked in a callback (nothing can complete)" % r0)
+        if e0 > tmo + REAL_SLACK_MS + (100 if w else 0):
+            timing.append("T5/in-time: connectSync(%d ms) with a busy I/O thread returned after %d ms" % (tmo, e0))
+    elif scen == "stop":
+        tmo, stop_at = int(t[2]), int(t[3])
+        if r0 is None or r0.startswith("ok:"):
+            bad.append("T1: a connectSync parked on a black hole returned %s when the transport was stopped" % r0)
+        if e0 > stop_at + REAL_SLACK_MS:
+            timing.append("T5/in-time: stop() at %d ms, the parked connectSync returned after %d ms" % (stop_at, e0))
+        if d.get("sessions_after_stop") not in (None, "0"):
+            bad.append("T3: %s sessions alive after stop()" % d.get("sessions_after_stop"))
+        for r in rets[1:]:
+            if r != "err:ShuttingDown":
+                bad.append("M3: connectSync on a stopped transport (engine->connect refuses) returned %s" % r)
+        for e in els[1:]:
+            if e > 300 + REAL_SLACK_MS:
+                timing.append("T5/in-time: connectSync on a stopped transport returned after %d ms" % e)
+    elif scen == "resolve":
+        tmo = int(t[3])
+        if r0 is None or r0.startswith("ok:"):
+            bad.append("T1: connectSync to a host that does not resolve returned %s on a %s transport (the Resolve error %s)"
+                       % (r0, d.get("proto"), "reached the GLOBAL close callback instead" if d["gclose_ids"] else "was lost"))
+        elif r0 not in ("err:Resolve", "err:Timeout"):
+            bad.append("L8: connectSync to a host that does not resolve returned %s" % r0)
+        if e0 > tmo + REAL_SLACK_MS:
+            timing.append("T5/in-time: connectSync(%d ms) to an unresolvable host returned after %d ms" % (tmo, e0))
+    elif scen == "udp":
+        if t[2] == "ok":
+            if r0 is None or not r0.startswith("ok:"):
+                bad.append("T1: UDP connectSync to a bound loopback socket returned %s" % r0)
+            elif d.get("peer_got_datagram") != "1":
+                bad.append("T1: UDP connectSync returned %s but a datagram sent on that session did not reach the peer" % r0)
+        elif r0 != "err:Config":
+            bad.append("L8: UDP connectSync with a TLS mode returned %s (expected the definite error Config)" % r0)
+    elif scen == "many":
+        n, tmo = int(t[2]), int(t[3])
+        if len(rets) != n:
+            bad.append("T5: %d of %d concurrent callers returned" % (len(rets), n))
+        for r in rets:
+            if not (r.startswith("ok:") or r == "err:Timeout"):
+                bad.append("L8: a concurrent caller got %s (targets: accepting / black hole)" % r)
+        if int(d.get("accepted", "0")) < len(held):
+            bad.append("T1: %d callers were handed a session but the accepting target saw only %s connections" % (len(held), d.get("accepted")))
+        if d.get("blackhole") == "1" and len(held) != (n + 1) // 2:
+            bad.append("T1: %d of %d callers aimed at the accepting target got ok" % (len(held), (n + 1) // 2))
+        for e in els:
+            if e > tmo + 100 + REAL_SLACK_MS:
+                timing.append("T5/in-time: a concurrent connectSync(%d ms) returned after %d ms" % (tmo, e))
+    elif scen == "ioguard":
+        if d.get("threw") != "1" or d.get("returned") != "0":
+            bad.append("T5: connectSync called on the I/O thread did not throw logic_error (threw=%s returned=%s): it would deadlock"
+                       % (d.get("threw"), d.get("returned")))
+    return bad + timing, (not bad and bool(timing))
+
+
+def run_real(ctx, hr, rng, scale, dist):
+    ops = [op for c in load_corpus() if c.get("cat") == "real" for op in c["ops"]] + gen_real_cases(rng, 28 * scale)
+    unrep = 0
+    k = 0
+    outs = []
+    while k < len(ops):
+        out, rc, err = ctx.run_lines([hr], ops[k:], timeout=1200)
+        out = [l for l in out if not l.startswith("[")]
+        outs += out[:len(ops) - k]
+        k = len(outs)
+        if k < len(ops):
+            outs.append("crash:rc=%s %s" % (rc, err[-400:].replace("\n", " ")))
+            k += 1
+    for op, l in zip(ops, outs):
+        scen = op.split()[1]
+        dist["real:" + scen] = dist.get("real:" + scen, 0) + 1
+        d = parse_real(l)
+        if d and "skip" in d:
+            dist["real-skipped:" + d["skip"]] = dist.get("real-skipped:" + d["skip"], 0) + 1
+            continue
+        if d:
+            for r in d["rets"][:1]:
+                dist["real-ret:%s:%s" % (scen, "ok" if r.startswith("ok:") else r)] = dist.get("real-ret:%s:%s" % (scen, "ok" if r.startswith("ok:") else r), 0) + 1
+            if scen == "gated":
+                dist["real-gated:connections-accepted-after-timeout"] = dist.get("real-gated:connections-accepted-after-timeout", 0) + int(d.get("accepted_late", "0"))
+            if scen == "stop" and d["rets"]:
+                dist["real-stop:parked-caller-got:" + d["rets"][0]] = dist.get("real-stop:parked-caller-got:" + d["rets"][0], 0) + 1
+        ctx.cov["traces_validated_against_impl"] += 1
+        ctx.count_case(op + "|" + l[:60], nontrivial=bool(d and d["rets"]))
+        fails, timing_only = real_monitor(op, l)
+        if fails:
+            # real sockets, real time: re-run the scenario ALONE (fresh process) before anything is reported
+            out2, rc2, err2 = ctx.run_lines([hr], [op], timeout=120)
+            out2 = [x for x in out2 if not x.startswith("[")]
+            l2 = out2[0] if out2 else "crash:rc=%s %s" % (rc2, err2[-300:].replace("\n", " "))
+            fails2, _ = real_monitor(op, l2)
+            if not fails2:
+                unrep += 1
+                ctx.notes.append("real-engine scenario `%s` failed a monitor in the batch (%s) and passed when re-run alone: not reported" % (op, fails[0][:160]))
+                continue
+            ctx.violation("property", fails2[0], {"ops": [op], "observed": [l2[:2000]], "first_observed": [l[:2000]], "failures": fails2[:6],
+                                                  "category": "real-" + scen,
+                                                  "note": "replay: feed the op line to harness/c04_real.cpp (real TcpEngine/UdpEngine on loopback)"},
+                          found_input=True)
+    return unrep
 
 
 def run_sched(ctx, hb, cases, dist):
@@ -465,6 +856,13 @@ def run_sched(ctx, hb, cases, dist):
                         dist[e.split(":")[0]] = dist.get(e.split(":")[0], 0) + 1
                     elif e.startswith("created:"):
                         dist["tls=" + e.split("tls=")[1]] = dist.get("tls=" + e.split("tls=")[1], 0) + 1
+            if res["status"] == "ok":
+                for lab in reach_counters(c, res):
+                    dist["reach:" + lab] = dist.get("reach:" + lab, 0) + 1
+            elif res["status"] == "diverged" and "choices" in c:
+                # a corpus schedule recorded as a choice list no longer replays (a harmless change in the number of scheduling points
+                # is enough): it is NOT judged - counted, so that a silently dead corpus shows in the evidence
+                dist["corpus-replay-diverged"] = dist.get("corpus-replay-diverged", 0) + 1
         ctx.count_case(sched_line(c) + "|" + (res["choices"] if res else ""), nontrivial=nsw >= 2)
         if len(ctx.cov["samples"]) < 6 and ctx.rng.chance(1, 60) and res:
             ctx.sample({"cat": c["cat"], "line": sched_line(c)[:300], "steps": ["%d:%s=>%s" % (s["tid"], s["step"], s["obs"]) for s in res["steps"][:16]]})
@@ -497,6 +895,69 @@ def run_sched(ctx, hb, cases, dist):
                                "observed": ["%d:%s=>%s" % (s["tid"], s["step"], s["obs"]) for s in res["steps"]] + [res["final"]],
                                "expected_by_model": mout[a + 1:b]}, found_input=False)
     return found
+
+
+def case_of_sched_line(line):
+    """inverse of sched_line: the program of a recorded `sched …` op line (choice list or seed as recorded)"""
+    t = line.split()
+    c = {"cat": "replay", "timeoutOneIn": int(t[2]), "spuriousOneIn": int(t[3]), "udp": t[4] == "polu", "policy": "" if t[5] == "-" else t[5], "threads": []}
+    if t[1].startswith("c:"):
+        c["choices"] = t[1][2:]
+    else:
+        c["seed"] = int(t[1])
+    for tok in t[6:]:
+        if tok == "t":
+            c["threads"].append([])
+        elif c["threads"]:
+            c["threads"][-1].append(tok)
+    return c
+
+
+def replay_case(ctx, hb, hr):
+    """--replay: re-run the op list of a replay file on the real code (and the model where one answers); exit 1 if it still fails."""
+    obj = json.load(open(ctx.replay))
+    ops = obj.get("ops") or []
+    if not ops:
+        print("replay: nothing to run (kind=%s)" % obj.get("kind"))
+        return 1 if ctx.violations else 0
+    still = False
+    if ops[0].startswith("real "):
+        if not hr:
+            return 1
+        for op in ops:
+            out, rc, err = ctx.run_lines([hr], [op], timeout=120)
+            out = [x for x in out if not x.startswith("[")]
+            l = out[0] if out else "crash:rc=%s %s" % (rc, err[-200:].replace("\n", " "))
+            print("op    %s\n impl  %s" % (op, l[:400]))
+            fails, _ = real_monitor(op, l)
+            for f in fails:
+                print("PROPERTY FAILS:", f[:300])
+            still = still or bool(fails)
+    elif ops[0].startswith("sched "):
+        if not hb:
+            return 1
+        dist = {}
+        nv = len(ctx.violations)
+        cases = [case_of_sched_line(o) for o in ops]
+        run_sched(ctx, hb, cases, dist)
+        for v in ctx.violations[nv:]:
+            print("PROPERTY/CORRESPONDENCE FAILS:", str(getattr(v, "what", v))[:300])
+        still = len(ctx.violations) > nv
+        if dist.get("corpus-replay-diverged"):
+            print("replay: the recorded choice list no longer replays on this tree (diverged) - not judged")
+    else:
+        if not hb:
+            return 1
+        c = {"cat": obj.get("category", "corpus"), "ops": ops}
+        (c, impl, model), = ctx.lockstep("connectsync", hb, [c])
+        for o, a, b in zip(ops, impl, model):
+            print("op    %s\n impl  %s\n model %s" % (o[:200], a[:200], b[:200]))
+        fails = seq_monitor(c, impl)
+        for f in fails:
+            print("PROPERTY FAILS:", f[:300])
+        still = bool(fails) or impl != model
+    print("replay: %s" % ("still failing" if still else "no longer failing"))
+    return 1 if still else 0
 
 
 def known_keys():
@@ -540,20 +1001,24 @@ def run(ctx: Ctx):
     quick = ctx.tier == "quick"
     scale = 1 if quick else 15
     rng = ctx.rng
-    ctx.translate(["tsyncskel"])
+    ctx.translate(["tsyncskel", "enginecontract"])
     ok_build = ctx.lake_build(MODULES)
     if ok_build:
         ctx.audit(MODULES, OBLIGATIONS)
         if not quick:
-            ctx.leanchecker(MODULES + ["IoraModel.Lemmas.ConnectSync", "IoraModel.Lemmas.ConnectSyncBase", "IoraModel.Lemmas.ConnectSyncA", "IoraModel.Lemmas.ConnectSyncB", "IoraModel.Lemmas.ConnectSyncC", "IoraModel.Lemmas.ConnectSyncD", "IoraModel.Lemmas.ConnectSyncE", "IoraModel.Lemmas.ConnectSyncF", "IoraModel.Lemmas.ConnectSyncR", "IoraModel.Lemmas.ConnectSyncG0", "IoraModel.Lemmas.ConnectSyncG", "IoraModel.Model.ConnectSync", "IoraModel.Model.ConnectSyncX", "IoraModel.Model.TsyncFacts", "IoraModel.Gen.TsyncSkel"])
+            ctx.leanchecker(MODULES + ["IoraModel.Lemmas.ConnectSync", "IoraModel.Lemmas.ConnectSyncBase", "IoraModel.Lemmas.ConnectSyncA", "IoraModel.Lemmas.ConnectSyncB", "IoraModel.Lemmas.ConnectSyncC", "IoraModel.Lemmas.ConnectSyncD", "IoraModel.Lemmas.ConnectSyncE", "IoraModel.Lemmas.ConnectSyncF", "IoraModel.Lemmas.ConnectSyncR", "IoraModel.Lemmas.ConnectSyncG0", "IoraModel.Lemmas.ConnectSyncG", "IoraModel.Lemmas.ConnectSyncH", "IoraModel.Model.ConnectSync", "IoraModel.Model.ConnectSyncX", "IoraModel.Model.TsyncFacts", "IoraModel.Model.ConnectSyncFacts", "IoraModel.Gen.TsyncSkel", "IoraModel.Gen.EngineContract"])
     else:
         ctx.cov["obligations"] = len(OBLIGATIONS)
     hb = ctx.build_harness("harness/c04_connectsync.cpp", sanitize=True, flags=[DETSCHED])
+    hr = ctx.build_harness("harness/c04_real.cpp", sanitize=True, opt="-O0")
     dist = {}
+    unreproduced = {"seq-in-time": 0, "real": 0}
+    if ctx.replay:
+        return replay_case(ctx, hb, hr)
     if hb:
         corpus = load_corpus()
         r1 = rng.fork("seq")
-        cases = [c for c in corpus if c.get("cat") != "sched"] + [gen_seq_case(r1) for _ in range(300 * scale)]
+        cases = [c for c in corpus if c.get("cat") not in ("sched", "real")] + [gen_seq_case(r1) for _ in range(300 * scale)]
         res = ctx.lockstep("connectsync", hb, cases)
         n_mis = 0
         for c, impl, model in res:
@@ -564,6 +1029,15 @@ def run(ctx: Ctx):
             if len(ctx.cov["samples"]) < 2 and ctx.rng.chance(1, 100):
                 ctx.sample({"cat": c["cat"], "ops": c["ops"][:10], "impl": [l[:100] for l in impl[:10]]})
             fails = seq_monitor(c, impl)
+            if fails and all(f.startswith("T5/in-time") for f in fails):
+                # real time under ASan on a loaded machine: re-run the case ALONE before reporting (review item H)
+                out2, rc2, err2 = ctx.run_lines([hb], c["ops"], timeout=120)
+                out2 = out2 + ["crash:" + str(rc2)] * (len(c["ops"]) - len(out2))
+                if not seq_monitor(c, out2):
+                    unreproduced["seq-in-time"] += 1
+                    ctx.notes.append("sequential case exceeded timeout + 1.5 s in the batch and not when re-run alone: not reported (%s)" % fails[0][:120])
+                    impl = out2[:len(c["ops"])]
+                    fails = []
             mism = [(i, a, b) for i, (a, b) in enumerate(zip(impl, model)) if a != b]
             if fails:
                 report_seq(ctx, hb, c, impl, model, fails)
@@ -580,6 +1054,9 @@ def run(ctx: Ctx):
         scases = [c for c in corpus if c.get("cat") == "sched"] + [gen_sched_case(r2, big=(i % 25 == 24)) for i in range(500 * scale)]
         found = run_sched(ctx, hb, scases, dist)
         finding_fc04a(ctx, hb, found, dist)
+    if hr:
+        unreproduced["real"] = run_real(ctx, hr, rng.fork("real"), scale, dist)
+    ctx.extra["unreproduced_when_run_alone"] = unreproduced
     ctx.extra["input_distribution"] = dist
     ctx.extra["repo_tree_sha"] = ctx.repo_tree_sha(ANCHOR_FILES)
     ctx.extra["not_proved"] = [
@@ -595,13 +1072,23 @@ def run(ctx: Ctx):
         "sub-interval time-out; the model has no separate step for this: engine-reported Timeout is generated only for plain callers",
         "the TLS mode / host / port are carried by an argument layer over the control model (Model/ConnectSyncX.lean, T_tls_mode_as_requested); "
         "what TcpEngine then does with the mode is C07's subject",
-        "the real TcpEngine (DNS, TCP/TLS handshake, RST, black-holed peers) is represented by the abstract FIFO engine of the EngineBase contract; "
-        "its conformance to that contract (every id returned by connect() gets exactly one onClose, Connect processed before Close) is C02's subject",
-        "UDP connectSync (returns engine->connect directly, no suppression) is not modelled",
+        "the real TcpEngine/UdpEngine (DNS, TCP/TLS handshake, RST, black-holed peers) is represented in Lean by the abstract FIFO engine of the "
+        "EngineBase contract. Backed, not proved: (i) regenerated source facts the model is instantiated with (engine_contract_from_source: "
+        "close()/connect() of both engines only enqueue, the Close arm of process() closes what it finds; dropped_close_refutes_T3 shows the "
+        "contract is necessary), (ii) a monitor-only real-engine family on loopback (harness/c04_real.cpp: accept / closed port / black hole / "
+        "RST / TLS failure / unresolvable / stop() under a parked caller / I/O-thread guard / the gated-I/O-thread schedule of seed C04-d). "
+        "doConnect/closeNow themselves (every id gets exactly one onClose) remain C02's subject",
+        "the wrapper's retry on an engine-reported Timeout, Transport::stop()/~Transport as model steps, and async connect() sessions sharing the "
+        "callbacks have no model step (the real-engine family exercises stop() and the engine-refusal path; T2_no_global_connect's hypothesis is "
+        "reachable only in the cfgBypass configuration)",
+        "process() catch arm (tcp_engine.hpp): if doConnect THROWS no onClose fires for that id - the caller still returns Timeout in time and "
+        "engine->close finds nothing, but the abandoned pendingConnects record is never erased (a leaked map entry, no open connection; observation, "
+        "not reproduced: needs an allocation/thread-start failure inside doConnect)",
         "schedules whose DetSched step budget runs out (status steplimit) are counted in input_distribution, not judged",
     ]
     ctx.assumptions += [
-        "engine contract (detail/engine_base.hpp): connect()/close() only enqueue; commands are processed FIFO; onConnect at most once per id and never after onClose",
+        "engine contract (detail/engine_base.hpp): connect()/close() only enqueue [now a regenerated source fact: engine_contract_from_source]; "
+        "commands are processed FIFO; onConnect at most once per id and never after onClose [C02]",
         "timeouts are scheduler choices (DetSched virtual time / model step `cWake c true`)",
         "engine->connect may refuse (model step cRefuse): the scripted engine refuses with ShuttingDown, the code TcpEngine::connect returns on a closed command queue",
     ]
